@@ -163,9 +163,16 @@ def main():
             raise RuntimeError(beh[rid]['m'])
         return [side, rid]
 
-    def comparator(a, b):
+    def data_extractor(recording):
+        # comparison data is per recording: some recordings carry a tolerance of their own, the others carry none
+        return {'tol': recording.id} if beh[recording.id].get('cd') else {}
+
+    def comparator(a, b, **data):
         bb = beh[a[1]]
         k = bb['k']
+        want = {'tol': a[1]} if bb.get('cd') else {}
+        if data != want:
+            return ComparatorResult(EqualityStatus.Failed, 'comparator of %s was handed the comparison data %r' % (a[1], sorted(data.items())))
         if k == 'comparatorRaises':
             raise RuntimeError(bb['m'])
         if k == 'bare':
@@ -184,7 +191,7 @@ def main():
             super(SlowKill, self)._kill_compare_process()
 
     before = set(live_children())
-    eq = SlowKill(iter(ids), player, extractor, comparator,
+    eq = SlowKill(iter(ids), player, extractor, comparator, comparison_data_extractor=data_extractor,
                   compare_execution_config=CompareExecutionConfig(
                       keep_results_in_comparison=case['keep'],
                       compare_in_dedicated_process=(case['mode'] == 'ded'),
